@@ -518,6 +518,25 @@ def exec_real(sc):
                     peer2 = GS.RealPeer(faketime=sc.get('peer_time'), fault=fault, missing=(fault == 'missing'))
                     with peer2:
                         c = run_cli(argv)
+                        c_multi = None
+                        if unsigned and key == 'signer' and fault is None and use_key and sc.get('peer_time') != GS.AFTER_EXPIRY:
+                            # the same request with a second, properly signed tree on the command line: the unsigned one
+                            # must still fail the invocation, wherever it stands
+                            root2 = os.path.join(w.base, 'tree2')
+                            os.makedirs(root2, exist_ok=True)
+                            with open(os.path.join(root2, 'a'), 'w') as f:
+                                pass
+                            with open(os.path.join(root2, 'Manifest'), 'w') as f:
+                                f.write(GS.clearsign(body, key='signer'))
+                            c_alone = run_cli(argv[:-1] + [root2])
+                            if c_alone['kind'] == 'ok' and c_alone['rc'] == 0:
+                                c_multi = [run_cli(argv[:-1] + [root, root2]), run_cli(argv[:-1] + [root2, root])]
+                    if c_multi:
+                        counters['real.cli-two-trees'] = 1
+                        for cm_, order_ in zip(c_multi, ('unsigned first', 'unsigned last')):
+                            if cm_['kind'] == 'ok' and cm_['rc'] == 0:
+                                violations.append(viol('sig.accepted', 'gemato %s <unsigned tree> + <signed tree> (%s): exit status 0' % (' '.join(argv[:-1]), order_),
+                                                       sig='cli-two-trees'))
                     what = 'gemato %s (key=%s trust=default peer_time=%s fault=%s mutated=%s user_home=%s)' % (
                         ' '.join(argv[:-1]), key, sc.get('peer_time'), fault, mutated, sc.get('user_home'))
                     out = ['real-cli', api, key, sc.get('peer_time'), fault, mutated, c['kind'], c.get('rc')]
